@@ -16,7 +16,15 @@ use pie::resource::file::{ExistsChecker, ModifiedChecker};
 use pie::{Pie, Resource, ResourceChecker};
 
 const SIZES: [usize; 12] = [0, 1, 3, 4, 100, 8191, 8192, 8193, 8194, 16384, 16385, 20000];
-const NAMES: [&str; 6] = ["a", "b", "ab", "bc", "abc", "c"];
+const NAMES: [&str; 8] = ["a", "b", "ab", "bc", "abc", "c", "caf\u{e9}", "caf\u{e8}"];
+
+/// the directory entry for a name of the universe; the last two names are written as single non-UTF-8 bytes
+/// (Latin-1 e-acute / e-grave), which differ only in a byte that is not valid UTF-8
+fn entry(dir: &PathBuf, nm: &str) -> PathBuf {
+  use std::os::unix::ffi::OsStrExt;
+  let bytes: Vec<u8> = nm.chars().map(|c| c as u32 as u8).collect();
+  dir.join(std::ffi::OsStr::from_bytes(&bytes))
+}
 
 fn content(kind: u8, size: usize) -> Vec<u8> {
   match kind {
@@ -128,11 +136,11 @@ pub fn run(seed: u64, n: usize, dir: &str) -> Vec<String> {
       } else {
         if roll < 40 {
           let nm = NAMES[rng.gen_range(0..NAMES.len())];
-          if !names.contains(&nm) { fs::write(path.join(nm), b"x").unwrap(); names.push(nm); }
+          if !names.contains(&nm) { fs::write(entry(&path, nm), b"x").unwrap(); names.push(nm); }
           set_mtime(&path, t); ev["act"] = json!("add_entry"); ev["name"] = json!(nm); ev["mt"] = json!(t);
         } else if roll < 60 && !names.is_empty() {
           let i = rng.gen_range(0..names.len()); let nm = names.remove(i);
-          fs::remove_file(path.join(nm)).unwrap(); set_mtime(&path, t); ev["act"] = json!("remove_entry"); ev["name"] = json!(nm); ev["mt"] = json!(t);
+          fs::remove_file(entry(&path, nm)).unwrap(); set_mtime(&path, t); ev["act"] = json!("remove_entry"); ev["name"] = json!(nm); ev["mt"] = json!(t);
         } else if roll < 72 {
           set_mtime(&path, t); ev["act"] = json!("touch"); ev["mt"] = json!(t);
         } else if roll < 88 {
@@ -233,8 +241,8 @@ fn sweep(root: &PathBuf, lines: &mut Vec<String>) {
   for g in 1..(1u32 << NAMES.len()) {
     let bit = g.trailing_zeros() as usize;
     let nm = NAMES[bit];
-    if present[bit] { fs::remove_file(path.join(nm)).unwrap(); present[bit] = false; lines.push(json!({"ev":"fs","act":"remove_entry","name":nm,"mt":7}).to_string()); }
-    else { fs::write(path.join(nm), b"x").unwrap(); present[bit] = true; lines.push(json!({"ev":"fs","act":"add_entry","name":nm,"mt":7}).to_string()); }
+    if present[bit] { fs::remove_file(entry(&path, nm)).unwrap(); present[bit] = false; lines.push(json!({"ev":"fs","act":"remove_entry","name":nm,"mt":7}).to_string()); }
+    else { fs::write(entry(&path, nm), b"x").unwrap(); present[bit] = true; lines.push(json!({"ev":"fs","act":"add_entry","name":nm,"mt":7}).to_string()); }
     set_mtime(&path, 7);
     let obs = observe(&mut pie, &path, &mut ids, &None);
     lines.push(json!({"ev":"stamps","sid":sid,"obs":obs}).to_string());
